@@ -29,9 +29,9 @@ theorem tracker_note (t : TriggerTracker) (st : AState) (k : ConditionKind) :
     trackerM (t.note st k) = (trackerM t).note k.toModel st := by
   unfold Tracker.note trackerM
   cases k with
-  | Explicit => simp [rs_tracker, ConditionKind.toModel]
-  | Implicit => simp [rs_tracker, ConditionKind.toModel]
-  | Blocker eo => cases eo <;> simp [rs_tracker, ConditionKind.toModel]
+  | Explicit => cases st <;> simp [rs_tracker, ConditionKind.toModel]
+  | Implicit => cases st <;> simp [rs_tracker, ConditionKind.toModel]
+  | Blocker eo => cases eo <;> cases st <;> simp [rs_tracker, ConditionKind.toModel]
 
 theorem tracker_events_blocked (t : TriggerTracker) : t.events_blocked = (trackerM t).eventsBlocked := rfl
 theorem tracker_value (t : TriggerTracker) : t.value.toModel = (trackerM t).value := rfl
